@@ -17,6 +17,11 @@ Model
   The point is taken BEFORE the operation executes: the thread announces the operation it is about
   to perform, the scheduler picks who runs next, and the operation executes (atomically together with
   the code that follows it up to the next point) when its thread is picked.
+* After-points (after_points=True, the default): a second scheduling point is taken immediately AFTER each
+  operation has taken effect, so the plain code between two operations of a thread is attributed to the earlier
+  or to the later operation by choice: "writer executed clear(), recorder runs update()/stop(), writer goes on
+  with its file I/O" is a schedule.  Each operation's effect stays atomic.  An after-point consumes tape only
+  when another thread is runnable.
 * Runnable: a thread whose announced operation cannot block (is_set/set/clear/start/is_alive/begin),
   a `wait` whose event is set, a `join` whose target has finished.
 * Choice: the runnable threads are listed with the current thread first, the others by thread id;
@@ -68,7 +73,7 @@ class Deadlock(BaseException):
         self.what = what
 
 
-NONBLOCKING = ("is_set", "set", "clear", "start", "is_alive", "begin", "yield")
+NONBLOCKING = ("is_set", "set", "clear", "start", "is_alive", "begin", "yield", "cont")
 
 
 class _T:
@@ -94,8 +99,10 @@ class _T:
 
 
 class Scheduler:
-    def __init__(self, tape=(), idle_limit: int = 12, max_steps: int = 200000, eager_start: bool = True):
+    def __init__(self, tape=(), idle_limit: int = 12, max_steps: int = 200000, eager_start: bool = True,
+                 after_points: bool = True):
         self.eager_start = eager_start
+        self.after_points = after_points
         self.tape = [int(x) for x in tape]
         self.pos = 0
         self.choices: List[Tuple[int, int]] = []  # (choice, number of alternatives) at every real choice
@@ -261,8 +268,32 @@ class Scheduler:
         raise SchedAbort()
 
     def executed(self, kind: str, name: str, result=None):
-        """Record the effect of an operation (called after it executed)."""
+        """Record the effect of an operation (called after it executed) and take the scheduling point AFTER it:
+        the thread may be preempted once the operation has taken effect, before the plain code that follows."""
         self.log.append((self.current.tid, kind, name, result))
+        if self.after_points and not self.aborting:
+            self._after()
+
+    def _after(self):
+        me = self.current
+        others = [t for t in self.threads if t is not me and self._can_run(t)]
+        if not others:
+            return  # nobody to switch to: no choice, no tape
+        self.steps += 1
+        if self.steps > self.max_steps:
+            self.failure = Deadlock("livelock", f"more than {self.max_steps} scheduling steps in one case")
+            me.pending = ("cont", None, None)
+            self._failed(me)
+        nxt = self._choose([me] + others)
+        if nxt is me:
+            return
+        me.pending = ("cont", None, None)  # always runnable: it only has to continue
+        nxt.last_run = self.steps
+        self.current = nxt
+        nxt.go.release()
+        self._park(me)
+        self._woken(me)
+        me.pending = None
 
     def changed(self):
         """The synchronisation state changed (or the harness started a new API call): polling threads look again."""
@@ -285,7 +316,7 @@ class Scheduler:
                     return
                 t.pending = None
                 self.changed()
-                self.executed("begin", t.name)
+                self.log.append((t.tid, "begin", t.name, None))
                 try:
                     st._target(*st._args, **st._kwargs)
                 except SchedAbort:
